@@ -110,7 +110,7 @@ where
 
     /// The link's incoming channel produced `frame` while the sender was waiting for something
     /// else: answer a detach from the remote peer and tell why the link stopped
-    async fn on_detached(
+    pub(crate) async fn on_detached(
         &mut self,
         writer: &mpsc::Sender<LinkFrame>,
         frame: Option<LinkFrame>,
